@@ -92,11 +92,15 @@ class Tracer(object):
                     pass
         self.snaps.append((tag, files))
 
-    def effect(self, kind):
+    def effect(self, kind, path=None):
         import gevent
         op = getattr(gevent.getcurrent(), 'verif_op', None)
         self.counts[op] = self.counts.get(op, 0) + 1
-        self.snap((op, self.counts[op], kind))
+        where = None
+        if path is not None:
+            d = os.path.basename(os.path.dirname(os.path.abspath(path)))
+            where = d if d in ('env', 'meta', 'tmp') else 'elsewhere'
+        self.snap((op, self.counts[op], kind, where))
 
 
 def install(tr):
@@ -110,13 +114,13 @@ def install(tr):
 
         def rename(self, a, b):
             real_os.rename(a, b)
-            tr.effect('rename')
+            tr.effect('rename', b)
 
         def remove(self, p):
             try:
                 real_os.remove(p)
             finally:
-                tr.effect('unlink')
+                tr.effect('unlink', p)
 
         def open(self, path, flags, *a, **kw):
             r = real_os.open(path, flags, *a, **kw)
@@ -448,11 +452,13 @@ def run_case(case, model):
         shutil.rmtree(root, ignore_errors=True)
     # ---- chunk counts per op, for the model
     per_op = {}
+    per_op_where = {}
     unmodelled = []
     for tag, files in tr.snaps:
         if tag[0] == 'before':
             continue
         per_op.setdefault(tag[0], []).append(tag[2])
+        per_op_where.setdefault(tag[0], []).append(tag[2] + (':' + tag[3] if len(tag) > 3 and tag[3] and tag[2] in ('rename', 'unlink') else ''))
     parts = []
     for n, op in enumerate(ops):
         kinds = per_op.get(n, [])
@@ -484,6 +490,15 @@ def run_case(case, model):
             parts.append('r:%d' % op[1])
     mres = model.ask('disk trace ' + ';'.join(parts))
     mops = [[pt.strip() for pt in o.split(' | ')] for o in mres.split(' ;; ')]
+    # the effects themselves, in order, with the directory each rename / unlink touches (tmp_dir=default: temp files are elsewhere,
+    # which the model does not distinguish)
+    meff = [o.strip() for o in model.ask('disk effects ' + ';'.join(parts)).split(' ;; ')]
+    effect_mismatch = None
+    for n, op in enumerate(ops):
+        got = ','.join(per_op_where.get(n, [])) or '-'
+        want = meff[n] if n < len(meff) else '?'
+        if got != want and effect_mismatch is None and not unmodelled:
+            effect_mismatch = {'op': 'disk effects', 'operation': op, 'impl': got, 'model': want}
     rev = {v: k for k, v in ids.items()}
     hits = []
     mismatch = None
@@ -569,6 +584,8 @@ def run_case(case, model):
             break
     if errors and mismatch is None:
         mismatch = {'op': 'storage op raised', 'errors': errors[:3]}
+    if effect_mismatch and mismatch is None:
+        mismatch = effect_mismatch
     if unmodelled and mismatch is None:
         mismatch = {'op': 'disk trace', 'impl': 'file-system effects the model does not have: %r' % unmodelled[:3], 'model': 'every write goes create / append* / rename'}
     tags = ['concurrent' if case['concurrent'] else 'sequential', 'tmp_dir=default' if case.get('default_tmp') else 'tmp_dir=given', 'ops=%d' % len(ops), 'snapshots<=30' if evaluated <= 30 else 'snapshots<=60' if evaluated <= 60 else 'snapshots>60']
